@@ -547,7 +547,13 @@ class XmlEnc(object):
                 cands += [('arr', c) for c in cands[:2]]
                 t2 = self.rng.choice(cands)
                 v2 = gen_value(self.rng, self.desc, t2, 2, False)
-                self.fill(elt, t2, v2)
+                # the substituted value is written without further mutations: a 'shape' inside a 'shape' inside ...
+                # is a branching process that need not end (thorough tier, seed 5: RecursionError in the generator)
+                saved, self.mutate_p = self.mutate_p, 0.0
+                try:
+                    self.fill(elt, t2, v2)
+                finally:
+                    self.mutate_p = saved
                 self.muts.append('%s shape %s as %s' % (name, ty[0], t2[0]))
                 return elt
             if m == 'attr':
